@@ -26,7 +26,7 @@ BOUNDS = ["templates: chain, diamond, SUM over a data range, range containing fo
           "behind a real ExcelOpxWrapper), yml / json / pkl reloaded",
           "history skeletons: up to 2 set_value (quick) / 3 (thorough) interleaved with evaluate of one cell, every skeleton "
           "ends with 'evaluate every cell'; inputs brought into the model by evaluating them or one of their dependants",
-          "written values: solver-chosen class {number, logical, blank, text from {'x','7',''}} with symbolic int |v|<=99"]
+          "written values: solver-chosen class {number, logical, blank, text from {'x','7',''}} with symbolic int |v|<=99; on sumrange also floats 100+v/100000"]
 ASSUMPTIONS = ["floats as exact reals", "computed references (OFFSET/INDIRECT) are outside the statement"]
 
 TEXTS = ("x", "7", "")
@@ -40,6 +40,8 @@ def value_of(k, v):
         return v > 0
     if k == 2:
         return None
+    if k == 4:
+        return 100 + v / 100000.0     # floats a few 1e-7 (relative) apart
     if v > 0:
         return TEXTS[0]
     if v < 0:
@@ -108,14 +110,14 @@ def _region(tname, config, skel, vals):
     return hits
 
 
-def ob_history(tname, config, skel, k0: int = 0, v0: int = 0, k1: int = 0, v1: int = 0,
+def ob_history(tname, config, skel, kmax, k0: int = 0, v0: int = 0, k1: int = 0, v1: int = 0,
                k2: int = 0, v2: int = 0) -> Optional[bool]:
     """after the history every cell equals the from-scratch compile with the current inputs"""
     ks, vs = (k0, k1, k2), (v0, v1, v2)
     n = sum(1 for op, _ in skel if op == "s")
     vals = []
     for i in range(n):
-        if not (0 <= ks[i] <= 3 and -99 <= vs[i] <= 99):
+        if not (0 <= ks[i] <= kmax and -99 <= vs[i] <= 99):
             return None
         vals.append(value_of(ks[i], vs[i]))
     m, current = run_history(tname, config, skel, vals)
@@ -158,7 +160,7 @@ def obligations(tier):
     def add(t, cfg, nsets, tag, seq, mid, sk):
         sig = ", ".join(f"k{i}: int, v{i}: int" for i in range(nsets))
         oid = f"{t}/{cfg}/{tag}/set{''.join(map(str, seq))}{'' if mid is None else '+eval'}"
-        obs.append(Obligation(PROP, oid, __name__, "ob_history", (t, cfg, sk), timeout=(240 if tier_ == 'quick' else 900) if nsets < 3 else 2400,
+        obs.append(Obligation(PROP, oid, __name__, "ob_history", (t, cfg, sk, 4 if (t == "sumrange" and tag == "all") else 3), timeout=(240 if tier_ == 'quick' else 900) if nsets < 3 else 2400,
                               float_mode="real", sig=sig, group=f"{t}/{cfg}"))
     if tier == "quick":
         for t in QUICK_TEMPLATES:
